@@ -5,6 +5,7 @@ package c17
 
 import (
 	"bytes"
+	"context"
 	"encoding/json"
 	"fmt"
 	"io"
@@ -216,6 +217,20 @@ func (prop) Run(t *testing.T, tape *kernel.Tape, sc kernel.Scenario) *kernel.Res
 	}
 
 	req := &http.Request{Method: "POST", Header: http.Header{}}
+	if sc.Name != "sweep" {
+		// probing does not depend on the request's context: live, or already ended (abandoned request)
+		switch tape.Weighted("request-context", 4, 1, 1) {
+		case 1:
+			cctx, cancel := context.WithCancel(context.Background())
+			defer cancel()
+			req = req.WithContext(cctx)
+		case 2:
+			cctx, cancel := context.WithCancel(context.Background())
+			cancel()
+			req = req.WithContext(cctx)
+			env.Fault("request-context-already-done")
+		}
+	}
 	switch {
 	case declared > 0:
 		req.ContentLength = int64(declared)
